@@ -3,7 +3,7 @@ C24, assembly: `_count_mutations` (plain and size-biased) through the sweep rule
 Proofs/CountMut.lean (edge bookkeeping, mutation loop) and Proofs/CountMutSB.lean (sample counts).
 -/
 import Mathlib.Algebra.BigOperators.Group.List.Basic
-import TsdateVerif.Proofs.CountMutSB
+import TsdateVerif.Proofs.CountMutSpan
 
 namespace Tsdate.CountMut
 open Tsdate Tsdate.Sweep
@@ -18,9 +18,23 @@ variable {α : Type} [Inhabited α] [Field α] [LinearOrder α] [IsStrictOrdered
 def wt (T : Tables α) (M : Muts α) (mask : Array Bool) (sb : Bool) (m : Nat) : α :=
   if sb then (samplesBelow T mask (aget M.pos m) (aget M.node m) : α) else 1
 
+/-- The specified weight of a unit of span of edge `e` at position `a`: the number of `mask` nodes at
+or below the edge's child in the local tree at `a` while the edge covers `a`, else `0`. -/
+def Wspec (T : Tables α) (mask : Array Bool) (e : Nat) (a : α) : α :=
+  if T.l e ≤ a ∧ a < T.r e then (samplesBelow T mask a (T.chi e) : α) else 0
+
+/-- `bs` lists break points of `[0, L]` in increasing order, starting at `0`, containing `L` and
+every edge end point: the local tree is constant between consecutive break points.  tskit's
+`ts.breakpoints()` is such a list. -/
+structure Partition (T : Tables α) (bs : List α) : Prop where
+  sorted : bs.Pairwise (· < ·)
+  head : bs.head? = some 0
+  len : T.seqLen ∈ bs
+  ends : ∀ e, e < T.numEdges → T.l e ∈ bs ∧ T.r e ∈ bs
+
 /-- The loop invariant of `_count_mutations`. -/
-structure CInv (T : Tables α) (M : Muts α) (mask : Array Bool) (sb : Bool) (order : List Nat) (x : α)
-    (insD remD : List Nat) (s : St α) : Prop where
+structure CInv (T : Tables α) (M : Muts α) (mask : Array Bool) (sb : Bool) (order : List Nat)
+    (bs : List α) (x : α) (insD remD : List Nat) (s : St α) : Prop where
   szNE : s.nodeEdge.size = mask.size
   szSP : s.edgeSpan.size = T.numEdges
   ne : NE T mask.size insD remD s.nodeEdge
@@ -30,6 +44,9 @@ structure CInv (T : Tables α) (M : Muts α) (mask : Array Bool) (sb : Bool) (or
       (if e ∈ insD then T.seqLen - T.l e else 0) - (if e ∈ remD then T.seqLen - T.r e else 0)) ∧
     s.err = false
   sized : sb = true → SBInv T mask mask.size s
+  spans : sb = true → Partition T bs → ∃ (Acc : Nat → α) (pre post : List α), bs = pre ++ x :: post ∧
+    (∀ e, e < T.numEdges → Acc e = integ (Wspec T mask e) (pre ++ [x])) ∧
+    (∀ e, e < T.numEdges → aget s.edgeSpan e = Acc e + Wt T s e * (T.seqLen - x))
 
 /-- What the caller of the kernel guarantees about the mutation table and the visiting order. -/
 structure MutsValid (M : Muts α) (N : Nat) (order : List Nat) : Prop where
@@ -39,7 +56,9 @@ structure MutsValid (M : Muts α) (N : Nat) (order : List Nat) : Prop where
   pos : ∀ m, m < M.node.size → (0 : α) ≤ aget M.pos m
 
 /-- The result of `_count_mutations` that C24 is about. -/
-def CountSpec (T : Tables α) (M : Muts α) (mask : Array Bool) (sb : Bool) (s : St α) : Prop :=
+def CountSpec (T : Tables α) (M : Muts α) (mask : Array Bool) (sb : Bool) (bs : List α) (s : St α) :
+    Prop :=
+  (sb = true → Partition T bs → ∀ e, e < T.numEdges → aget s.edgeSpan e = integ (Wspec T mask e) bs) ∧
   s.err = false ∧
   (∀ m, m < M.node.size → ∀ e, aget s.mutEdge m = some e ↔ Above T M m e) ∧
   (∀ e, e < T.numEdges → aget s.edgeMuts e =
@@ -61,11 +80,55 @@ theorem SBInv.congr {T : Tables α} {mask : Array Bool} {N : Nat} {s s' : St α}
   exact ⟨by rw [h1]; exact h.szNS, by rw [h2]; exact h.szNP, by rw [h2, h3]; exact h.np,
     by rw [h1, hp]; exact h.ns, by rw [h4]; exact h.err⟩
 
-theorem mutLoop_ok (T : Tables α) (M : Muts α) (mask : Array Bool) (sb : Bool) (order : List Nat)
-    (time : Nat → α) (hS : Static T mask.size sb time) (hM : MutsValid M mask.size order)
+theorem Wt_congr (T : Tables α) {s s' : St α} (h1 : s'.nodeEdge = s.nodeEdge)
+    (h2 : s'.nodeSamples = s.nodeSamples) (e : Nat) : Wt T s' e = Wt T s e := by
+  unfold Wt; rw [h1, h2]
+
+/-- Between `left` and `right`, `nodes_samples[u]` is the specified count of `mask` nodes below `u` in
+the local tree at any position of the interval. -/
+theorem ns_eq_samplesBelow (T : Tables α) (mask : Array Bool) (time : Nat → α)
+    (hV : Valid T) (hNO : NoOverlap T) (hC : ∀ e, e < T.numEdges → T.chi e < mask.size)
+    (hP : ∀ e, e < T.numEdges → T.par e < mask.size)
+    (hT : ∀ e, e < T.numEdges → time (T.chi e) < time (T.par e))
     {x x' : α} {insD insR remD remR : List Nat} (F : AdvFacts T x x' insD insR remD remR)
-    (s : St α) (h : CInv T M mask sb order x insD remD s) :
-    CInv T M mask sb order x' insD remD (mutLoop M sb x' s) := by
+    (s : St α) (hszNE : s.nodeEdge.size = mask.size) (hne : NE T mask.size insD remD s.nodeEdge)
+    (hsb : SBInv T mask mask.size s) (pos : α) (h1 : x ≤ pos) (h2 : pos < x') (u : Nat)
+    (hu : u < mask.size) :
+    aget s.nodeSamples u = (samplesBelow T mask pos u : α) := by
+  have hI : ∀ e ∈ insD, e < T.numEdges := fun e he =>
+    hV.mem_ins.mp (by rw [F.hins]; exact List.mem_append_left _ he)
+  obtain ⟨ho, hQN⟩ := older_of T mask.size time hT hP insD remD hI s hszNE hne hsb.np
+  have hpar := parentAt_eq_parOf T hV hNO mask.size hC F s hszNE hne hsb.np pos h1 h2
+  rw [hsb.ns u hu, samplesBelow_eq T mask time pos (hpar ▸ ho) (hpar ▸ hQN), hpar]
+
+/-- … and the weight of every edge is the specified one. -/
+theorem wt_eq_wspec (T : Tables α) (mask : Array Bool) (time : Nat → α)
+    (hV : Valid T) (hNO : NoOverlap T) (hC : ∀ e, e < T.numEdges → T.chi e < mask.size)
+    (hP : ∀ e, e < T.numEdges → T.par e < mask.size)
+    (hT : ∀ e, e < T.numEdges → time (T.chi e) < time (T.par e))
+    {x x' : α} {insD insR remD remR : List Nat} (F : AdvFacts T x x' insD insR remD remR)
+    (s : St α) (hszNE : s.nodeEdge.size = mask.size) (hne : NE T mask.size insD remD s.nodeEdge)
+    (hsb : SBInv T mask mask.size s) (pos : α) (h1 : x ≤ pos) (h2 : pos < x') (e : Nat)
+    (he : e < T.numEdges) : Wspec T mask e pos = Wt T s e := by
+  unfold Wspec Wt
+  have hact := F.active_iff hV pos h1 h2 e he
+  have hne' := hne (T.chi e) (hC e he) e
+  by_cases ha : T.l e ≤ pos ∧ pos < T.r e
+  · have := hact.mpr ha
+    rw [if_pos ha, if_pos (hne'.mpr ⟨this.1, this.2, rfl⟩)]
+    exact (ns_eq_samplesBelow T mask time hV hNO hC hP hT F s hszNE hne hsb pos h1 h2 _ (hC e he)).symm
+  · have : ¬ aget s.nodeEdge (T.chi e) = some e := by
+      intro hh
+      have := hne'.mp hh
+      exact ha (hact.mp ⟨this.1, this.2.1⟩)
+    rw [if_neg ha, if_neg this]
+
+theorem mutLoop_ok (T : Tables α) (M : Muts α) (mask : Array Bool) (sb : Bool) (order : List Nat)
+    (time : Nat → α) (bs : List α) (hS : Static T mask.size sb time)
+    (hM : MutsValid M mask.size order)
+    {x x' : α} {insD insR remD remR : List Nat} (F : AdvFacts T x x' insD insR remD remR)
+    (s : St α) (h : CInv T M mask sb order bs x insD remD s) :
+    CInv T M mask sb order bs x' insD remD (mutLoop M sb x' s) := by
   have hV := hS.valid
   obtain ⟨mutD, hord, hD, hR, hok⟩ := h.muts
   set p : Nat → Bool := fun m => decide (aget M.pos m < x') with hp
@@ -89,13 +152,8 @@ theorem mutLoop_ok (T : Tables α) (M : Muts α) (mask : Array Bool) (sb : Bool)
     | false => simp
     | true =>
       simp only [if_true]
-      have hsbI := h.sized hsb
-      obtain ⟨ho, hQN⟩ := older_of T mask.size time (hS.older hsb) hS.par insD remD hI s h.szNE h.ne
-        hsbI.np
-      have hpar := parentAt_eq_parOf T hV hS.noOverlap mask.size hS.chi F s h.szNE h.ne hsbI.np
-        (aget M.pos m) h1 h2
-      rw [hsbI.ns _ (hM.node m hm), samplesBelow_eq T mask time (aget M.pos m) (hpar ▸ ho)
-        (hpar ▸ hQN), hpar]
+      exact ns_eq_samplesBelow T mask time hV hS.noOverlap hS.chi hS.par (hS.older hsb) F s h.szNE h.ne
+        (h.sized hsb) (aget M.pos m) h1 h2 _ (hM.node m hm)
   -- the fold over the mutations in [x, x')
   have hfold : (∀ rest, tk = tk ++ rest →
         MutsOk T M (wt T M mask sb) (mutD ++ tk) (rest ++ dp) (tk.foldl (mutStep M sb) s)) ∧
@@ -158,7 +216,7 @@ theorem mutLoop_ok (T : Tables α) (M : Muts α) (mask : Array Bool) (sb : Bool)
     rfl
   rw [hml]
   refine ⟨by simpa [hfne] using h.szNE, by simpa [hfsp] using h.szSP, by simpa [hfne] using h.ne, ?_, ?_,
-    ?_⟩
+    ?_, ?_⟩
   · refine ⟨mutD ++ tk, ?_, ?_, ?_, hfok'.congr rfl rfl⟩
     · simp only; rw [hord, hsplit]; simp
     · intro m hm
@@ -172,6 +230,46 @@ theorem mutLoop_ok (T : Tables α) (M : Muts α) (mask : Array Bool) (sb : Bool)
     exact ⟨h1, h2⟩
   · intro hsb
     exact (h.sized hsb).congr hfns hfnp hfne hferr
+  · -- the span accumulator: advancing `left` integrates the current weights over [x, x')
+    intro hsb hP
+    obtain ⟨Acc, pre, post, hbs, hAcc, hspan⟩ := h.spans hsb hP
+    have hWt : ∀ e, Wt T ({ tk.foldl (mutStep M sb) s with mutR := dp } : St α) e = Wt T s e :=
+      fun e => Wt_congr T hfne hfns e
+    by_cases hxx : x = x'
+    · subst hxx
+      refine ⟨Acc, pre, post, hbs, hAcc, ?_⟩
+      intro e he
+      rw [hWt e]
+      show aget (tk.foldl (mutStep M sb) s).edgeSpan e = _
+      rw [hfsp]; exact hspan e he
+    · have hlt : x < x' := lt_of_le_of_ne F.le hxx
+      have hmem : x' ∈ pre ++ x :: post := by
+        rw [← hbs]
+        rcases F.isBreak with hh | ⟨e, he, hh | hh⟩
+        · rw [hh]; exact hP.len
+        · rw [hh]; exact (hP.ends e he).1
+        · rw [hh]; exact (hP.ends e he).2
+      obtain ⟨mid, post', hpost, hmid⟩ := split_between pre x post x' (hbs ▸ hP.sorted) hmem hlt
+      refine ⟨fun e => Acc e + Wt T s e * (x' - x), pre ++ x :: mid, post', ?_, ?_, ?_⟩
+      · rw [hbs, hpost]; simp
+      · intro e he
+        have hc : ∀ a ∈ x :: mid, Wspec T mask e a = Wt T s e := by
+          intro a ha
+          have ha' : x ≤ a ∧ a < x' := by
+            rcases List.mem_cons.mp ha with rfl | ha
+            · exact ⟨le_refl _, hlt⟩
+            · exact ⟨le_of_lt (hmid a ha).1, (hmid a ha).2⟩
+          exact wt_eq_wspec T mask time hV hS.noOverlap hS.chi hS.par (hS.older hsb) F s h.szNE h.ne
+            (h.sized hsb) a ha'.1 ha'.2 e he
+        have e1 : (pre ++ x :: mid) ++ [x'] = pre ++ x :: (mid ++ [x']) := by simp
+        have e2 := integ_const (Wspec T mask e) (Wt T s e) x mid x' hc
+        rw [List.cons_append] at e2
+        show Acc e + Wt T s e * (x' - x) = _
+        rw [e1, integ_append, ← hAcc e he, e2]
+      · intro e he
+        rw [hWt e]
+        show aget (tk.foldl (mutStep M sb) s).edgeSpan e = _
+        rw [hfsp, hspan e he]; ring
 
 open Classical in
 /-- in a forest without edges every node is alone in its tree -/
@@ -198,20 +296,20 @@ theorem cntBelow_empty (mark : Nat → Bool) (n u : Nat) (hu : u < n) :
   · simp [hm]
 
 theorem countWith_correct (T : Tables α) (M : Muts α) (mask : Array Bool) (sb : Bool)
-    (order : List Nat) (time : Nat → α) (hS : Static T mask.size sb time)
+    (order : List Nat) (time : Nat → α) (bs : List α) (hS : Static T mask.size sb time)
     (hM : MutsValid M mask.size order) :
-    ∃ s, countWith T M mask sb order = some s ∧ CountSpec T M mask sb s := by
+    ∃ s, countWith T M mask sb order = some s ∧ CountSpec T M mask sb bs s := by
   have hV := hS.valid
   have hNO := hS.noOverlap
   have hN := hS.chi
   set N := mask.size with hNdef
   have hndI := hV.nodup_ins
   have hndR := hV.nodup_rem
-  have key := sweep_rule T hV (hooks T M sb) (CInv T M mask sb order) (CInv T M mask sb order)
-    (CountSpec T M mask sb) (init T.numEdges M mask order)
+  have key := sweep_rule T hV (hooks T M sb) (CInv T M mask sb order bs) (CInv T M mask sb order bs)
+    (CountSpec T M mask sb bs) (init T.numEdges M mask order)
   apply key
   · -- init
-    refine ⟨by simp [init], by simp [init], ?_, ?_, ?_, ?_⟩
+    refine ⟨by simp [init], by simp [init], ?_, ?_, ?_, ?_, ?_⟩
     · intro c hc e
       have hc' : c < mask.size := hc
       simp [init, aget, hc']
@@ -243,6 +341,25 @@ theorem countWith_correct (T : Tables α) (M : Muts α) (mask : Array Bool) (sb 
         rw [hpar, cntBelow_empty _ _ _ hu]
         simp only [init, aget]
         simp [hu]
+    · intro hsb hP
+      obtain ⟨post, hpost⟩ : ∃ post, bs = (0 : α) :: post := by
+        cases hb : bs with
+        | nil => have := hP.head; rw [hb] at this; simp at this
+        | cons a r =>
+          have := hP.head; rw [hb] at this
+          simp only [List.head?_cons, Option.some.injEq] at this
+          exact ⟨r, by rw [this]⟩
+      refine ⟨fun _ => 0, [], post, by simpa using hpost, by intro e he; simp, ?_⟩
+      intro e he
+      have : Wt T (init T.numEdges M mask order : St α) e = 0 := by
+        unfold Wt
+        have : aget (init T.numEdges M mask order : St α).nodeEdge (T.chi e) = none := by
+          simp only [init, aget]
+          by_cases hc : T.chi e < mask.size <;> simp [hc]
+          rfl
+        rw [this]; simp
+      rw [this]
+      simp [init, aget, he]
   · -- head
     intro x insD remD s h; exact h
   · -- remove
@@ -253,8 +370,8 @@ theorem countWith_correct (T : Tables α) (M : Muts α) (mask : Array Bool) (sb 
       have := hndR; rw [F.hrem] at this
       intro hh
       exact (List.nodup_append.mp this).2.2 e hh e (List.mem_cons_self ..) rfl
-    show CInv T M mask sb order x insD (remD ++ [e]) (removeEdge T sb x s e)
-    refine ⟨by rw [h1]; simpa using h.szNE, by rw [h5]; exact h.szSP, ?_, ?_, ?_, ?_⟩
+    show CInv T M mask sb order bs x insD (remD ++ [e]) (removeEdge T sb x s e)
+    refine ⟨by rw [h1]; simpa using h.szNE, by rw [h5]; exact h.szSP, ?_, ?_, ?_, ?_, ?_⟩
     · rw [h1]; exact ne_remove T hV hNO N hN F s.nodeEdge h.szNE h.ne
     · obtain ⟨mutD, a, b, c, d⟩ := h.muts
       exact ⟨mutD, by rw [h4]; exact a, b, by rw [h4]; exact c, by rw [h4]; exact d.congr h2 h3⟩
@@ -275,6 +392,15 @@ theorem countWith_correct (T : Tables α) (M : Muts α) (mask : Array Bool) (sb 
     · intro hsb
       subst hsb
       exact removeEdge_sb T hV hNO mask N time (hS.older rfl) hN hS.par F s h.szNE h.ne (h.sized rfl)
+    · intro hsb hP
+      subst hsb
+      obtain ⟨Acc, pre, post, hbs, hAcc, hspan⟩ := h.spans rfl hP
+      refine ⟨Acc, pre, post, hbs, hAcc, ?_⟩
+      intro e' he'
+      have := removeEdge_span T hV hNO mask N time (hS.older rfl) hN hS.par F s h.szNE h.szSP h.ne
+        (h.sized rfl) e' he'
+      have h0 := hspan e' he'
+      linarith
   · -- insert
     intro x insD e insR remD remR s F h
     obtain ⟨h1, h2, h3, h4, h5⟩ := insertEdge_shared T sb x s e
@@ -283,8 +409,8 @@ theorem countWith_correct (T : Tables α) (M : Muts α) (mask : Array Bool) (sb 
       have := hndI; rw [F.hins] at this
       intro hh
       exact (List.nodup_append.mp this).2.2 e hh e (List.mem_cons_self ..) rfl
-    show CInv T M mask sb order x (insD ++ [e]) remD (insertEdge T sb x s e)
-    refine ⟨by rw [h1]; simpa using h.szNE, by rw [h5]; exact h.szSP, ?_, ?_, ?_, ?_⟩
+    show CInv T M mask sb order bs x (insD ++ [e]) remD (insertEdge T sb x s e)
+    refine ⟨by rw [h1]; simpa using h.szNE, by rw [h5]; exact h.szSP, ?_, ?_, ?_, ?_, ?_⟩
     · rw [h1]; exact ne_insert T hV hNO N hN F s.nodeEdge h.szNE h.ne
     · obtain ⟨mutD, a, b, c, d⟩ := h.muts
       exact ⟨mutD, by rw [h4]; exact a, b, by rw [h4]; exact c, by rw [h4]; exact d.congr h2 h3⟩
@@ -305,19 +431,55 @@ theorem countWith_correct (T : Tables α) (M : Muts α) (mask : Array Bool) (sb 
     · intro hsb
       subst hsb
       exact insertEdge_sb T hV hNO mask N time (hS.older rfl) hN hS.par F s h.szNE h.ne (h.sized rfl)
+    · intro hsb hP
+      subst hsb
+      obtain ⟨Acc, pre, post, hbs, hAcc, hspan⟩ := h.spans rfl hP
+      refine ⟨Acc, pre, post, hbs, hAcc, ?_⟩
+      intro e' he'
+      have := insertEdge_span T hV hNO mask N time (hS.older rfl) hN hS.par F s h.szNE h.szSP h.ne
+        (h.sized rfl) e' he'
+      have h0 := hspan e' he'
+      linarith
   · -- advance
     intro x x' insD insR remD remR s F h
     constructor
     · intro hstop; exact absurd hstop (by simp [hooks])
     · intro _
-      exact mutLoop_ok T M mask sb order time hS hM F s h
+      exact mutLoop_ok T M mask sb order time bs hS hM F s h
   · -- exit
     intro x s hall _ h
     obtain ⟨mutD, hord, hD, hR, hok⟩ := h.muts
     have hnoAbove : ∀ m ∈ s.mutR, ∀ e, ¬ Above T M m e := by
       intro m hm e hA
       exact absurd (lt_of_lt_of_le hA.2.2.2 (le_trans (hall e hA.1) (hR m hm))) (lt_irrefl _)
-    refine ⟨?_, ?_, ?_, ?_⟩
+    refine ⟨?_, ?_, ?_, ?_, ?_⟩
+    · -- size-biased spans: all weights are 0 now, the rest of the partition contributes nothing
+      intro hsb hP e he
+      obtain ⟨Acc, pre, post, hbs, hAcc, hspan⟩ := h.spans hsb hP
+      have hW0 : Wt T s e = 0 := by
+        unfold Wt
+        have : ¬ aget s.nodeEdge (T.chi e) = some e := by
+          intro hh
+          have := (h.ne (T.chi e) (hN e he) e).mp hh
+          exact this.2.1 (hV.mem_rem.mpr he)
+        rw [if_neg this]
+      rw [hspan e he, hW0, zero_mul, add_zero, hAcc e he]
+      have happ := integ_append (Wspec T mask e) x pre post
+      rw [← hbs] at happ
+      rw [happ]
+      have : integ (Wspec T mask e) (x :: post) = 0 := by
+        apply integ_zero
+        intro a ha
+        have hxa : x ≤ a := by
+          rcases List.mem_cons.mp ha with rfl | ha
+          · exact le_refl _
+          · have := (List.pairwise_append.mp (hbs ▸ hP.sorted)).2.1
+            exact le_of_lt ((List.pairwise_cons.mp this).1 a ha)
+        unfold Wspec
+        rw [if_neg]
+        rintro ⟨_, h2⟩
+        exact absurd (lt_of_lt_of_le h2 (le_trans (hall e he) hxa)) (lt_irrefl _)
+      rw [this, add_zero]
     · cases hsb : sb with
       | false => exact (h.plain hsb).2
       | true => exact (h.sized hsb).err
@@ -344,6 +506,109 @@ theorem countWith_correct (T : Tables α) (M : Muts α) (mask : Array Bool) (sb 
       obtain ⟨hs, _⟩ := h.plain hsb
       rw [hs e he, if_pos (hV.mem_ins.mpr he), if_pos (hV.mem_rem.mpr he)]
       ring
+
+/-! ### from the executable checks to the hypotheses above -/
+
+theorem pairwise_of_strictSorted : ∀ l : List α, strictSorted l = true → l.Pairwise (· < ·)
+  | [], _ => List.Pairwise.nil
+  | [a], _ => by simp
+  | a :: b :: r, h => by
+    simp only [strictSorted, Bool.and_eq_true, decide_eq_true_eq] at h
+    have ih := pairwise_of_strictSorted (b :: r) h.2
+    refine List.Pairwise.cons ?_ ih
+    intro c hc
+    rcases List.mem_cons.mp hc with rfl | hc
+    · exact h.1
+    · exact lt_trans h.1 (List.rel_of_pairwise_cons ih hc)
+
+theorem mem_of_memB (x : α) (l : List α) (h : memB x l = true) : x ∈ l := by
+  simp only [memB, List.any_eq_true, Bool.and_eq_true, Bool.not_eq_true', decide_eq_false_iff_not] at h
+  obtain ⟨b, hb, h1, h2⟩ := h
+  have : b = x := le_antisymm (not_lt.mp h2) (not_lt.mp h1)
+  exact this ▸ hb
+
+theorem partition_of_B (T : Tables α) (bs : List α) (h : partitionB T bs = true) : Partition T bs := by
+  simp only [partitionB, Bool.and_eq_true, List.all_eq_true, List.mem_range] at h
+  obtain ⟨⟨⟨h1, h2⟩, h3⟩, h4⟩ := h
+  refine ⟨pairwise_of_strictSorted bs h1, ?_, mem_of_memB _ _ h3,
+    fun e he => ⟨mem_of_memB _ _ (h4 e he).1, mem_of_memB _ _ (h4 e he).2⟩⟩
+  cases bs with
+  | nil => simp at h2
+  | cons b r =>
+    simp only [Bool.and_eq_true, Bool.not_eq_true', decide_eq_false_iff_not] at h2
+    have : b = 0 := le_antisymm (not_lt.mp h2.2) (not_lt.mp h2.1)
+    rw [this]; rfl
+
+/-- The visiting order `np.argsort(mutations_position)` and the mutation table meet what the
+kernel's proof needs, given the executable check `mutsOkB`. -/
+theorem argsort_valid (M : Muts α) (N : Nat) (h : mutsOkB M N = true) :
+    MutsValid M N (argsort M) := by
+  simp only [mutsOkB, Bool.and_eq_true, List.all_eq_true, List.mem_range, decide_eq_true_eq] at h
+  refine ⟨List.mergeSort_perm _ _, ?_, fun m hm => (h.2 m hm).1, fun m hm => (h.2 m hm).2⟩
+  have := List.pairwise_mergeSort
+    (le := fun i j => decide (aget M.pos i ≤ aget M.pos j))
+    (fun a b c hab hbc => by
+      simp only [decide_eq_true_eq] at *
+      exact le_trans hab hbc)
+    (fun a b => by
+      simp only [Bool.or_eq_true, decide_eq_true_eq]
+      exact le_total _ _)
+    (List.range M.node.size)
+  exact this.imp (fun h => by simpa using h)
+
+theorem children_below (T : Tables α) (N : Nat) (h : nodesBelowB T N = true) :
+    ∀ e, e < T.numEdges → T.chi e < N := by
+  intro e he
+  simp only [nodesBelowB, List.all_eq_true, List.mem_range, Bool.and_eq_true,
+    decide_eq_true_eq] at h
+  exact (h e he).2
+
+theorem parents_below (T : Tables α) (N : Nat) (h : nodesBelowB T N = true) :
+    ∀ e, e < T.numEdges → T.par e < N := by
+  intro e he
+  simp only [nodesBelowB, List.all_eq_true, List.mem_range, Bool.and_eq_true,
+    decide_eq_true_eq] at h
+  exact (h e he).1
+
+/-- the executable checks give the static facts the kernel proof uses (plain variant) -/
+theorem static_plain (T : Tables α) (N : Nat) (hV : validB T = true) (hO : noOverlapB T = true)
+    (hN : nodesBelowB T N = true) : Static T N false (fun _ => (0 : α)) :=
+  ⟨valid_of_validB T hV, noOverlap_of_B T hO, children_below T N hN,
+    parents_below T N hN, fun h => absurd h (by simp)⟩
+
+/-- … and for the size-biased variant, with node times making every parent older than its child -/
+theorem static_sized (T : Tables α) (N : Nat) (sb : Bool) (times : Array α)
+    (hV : validB T = true)
+    (hO : noOverlapB T = true) (hN : nodesBelowB T N = true) (hT : timesOkB T times = true) :
+    Static T N sb (fun u => aget times u) := by
+  refine ⟨valid_of_validB T hV, noOverlap_of_B T hO, children_below T N hN,
+    parents_below T N hN, ?_⟩
+  intro _ e he
+  simp only [timesOkB, List.all_eq_true, List.mem_range, decide_eq_true_eq] at hT
+  exact hT e he
+
+theorem tally_fold (E : Nat) (l : List (Option Nat)) (hl : ∀ e, some e ∈ l → e < E) :
+    ∀ (acc : Array α), acc.size = E → ∀ e, e < E →
+      aget (l.foldl tallyStep acc) e = aget acc e + (l.count (some e) : α) := by
+  induction l with
+  | nil => intro acc _ e _; simp
+  | cons a r ih =>
+    intro acc hsz e he
+    have hr : ∀ e, some e ∈ r → e < E := fun e h => hl e (List.mem_cons_of_mem _ h)
+    rw [List.foldl_cons]
+    cases a with
+    | none =>
+      simp only [tallyStep]
+      rw [ih hr acc hsz e he, List.count_cons]
+      simp
+    | some e0 =>
+      simp only [tallyStep]
+      have he0 : e0 < acc.size := by rw [hsz]; exact hl e0 (List.mem_cons_self ..)
+      rw [ih hr _ (by simpa using hsz) e he, aget_aset _ _ _ _ he0, List.count_cons]
+      by_cases hee : e = e0
+      · subst hee; simp; ring
+      · have : ¬ e0 = e := fun h => hee h.symm
+        simp [hee, this]
 
 end
 
